@@ -20,6 +20,11 @@ ORIGIN = {
            "stale caches or shared mutable objects)",
     "_r6": "independent sub-agent given only the property text, a scratch worktree and one-line descriptions of the "
            "five earlier ideas to avoid (round 6: asked to list the property's clauses and attack an untouched one)",
+    "_r7": "independent sub-agent given only the property text, a scratch worktree and one-line descriptions of the "
+           "six earlier ideas to avoid (round 7, same protocol as round 6)",
+    "_r8": "independent sub-agent given only the property text, a scratch worktree and one-line descriptions of all "
+           "earlier ideas for that property to avoid (round 8, same protocol as round 6; the ten properties not "
+           "seeded in round 7)",
 }
 
 
